@@ -1,3 +1,4 @@
+import Chartparse.Proofs.ReDispatch
 import Chartparse.Proofs.ReLyric
 import Chartparse.Proofs.ReNorm
 import Chartparse.Proofs.ReLine
@@ -48,6 +49,55 @@ theorem C09_lyric_dispatch (p t v q : Str) (hp : AllIn .space p) (ht : AllIn .di
   rw [gen_events_kind_order]
   simp only [List.map, Dsp.classify, decodeKind, kindRe]
   rw [C09_lyric_accept p t v q hp ht ht0 hv hq]
+  simp [grpD, grp]
+
+/-- **C09, text**: a quote-free text that starts with neither `lyric ` nor `section ` is rejected by the lyric and the
+    section recognisers and accepted by the text recogniser — so it is classified as a text event (position 2 of the kind
+    order) carrying the whole text -/
+theorem C09_text_dispatch (p t v q : Str) (hp : AllIn .space p) (ht : AllIn .digit t) (ht0 : t ≠ [])
+    (hv : AllIn (.notLit 34) v) (hq : AllIn .space q)
+    (hl : ¬ ∃ r, v ++ 34 :: q = [108, 121, 114, 105, 99, 32] ++ r)
+    (hs : ¬ ∃ r, v ++ 34 :: q = [115, 101, 99, 116, 105, 111, 110, 32] ++ r) :
+    Dsp.classify (Gen.eventsKindOrder.map decodeKind) (p ++ (t ++ ([32, 61, 32, 69, 32, 34] ++ (v ++ 34 :: q)))) 0
+      = some (2, .ev 8 (intOf t) v) := by
+  rw [gen_events_kind_order]
+  have hly : Gen.lyricRe.matchGroups (p ++ (t ++ ([32, 61, 32, 69, 32, 34] ++ (v ++ 34 :: q)))) = none := by
+    rw [matchGroups_of_norm_eq gen_lyric_is_template]
+    unfold lyricT
+    have := ev_reject [69, 32, 34, 108, 121, 114, 105, 99, 32] (quotedTail .any) p t ([69, 32, 34] ++ (v ++ 34 :: q)) hp ht ht0 (by
+      rintro ⟨r, hr⟩
+      simp only [List.cons_append, List.nil_append, List.cons.injEq, true_and] at hr
+      exact hl ⟨r, by simpa using hr⟩)
+    simpa using this
+  have hse : Gen.sectionRe.matchGroups (p ++ (t ++ ([32, 61, 32, 69, 32, 34] ++ (v ++ 34 :: q)))) = none := by
+    rw [matchGroups_of_norm_eq gen_section_is_template]
+    unfold sectionT
+    have := ev_reject [69, 32, 34, 115, 101, 99, 116, 105, 111, 110, 32] (quotedTail .any) p t ([69, 32, 34] ++ (v ++ 34 :: q)) hp ht ht0 (by
+      rintro ⟨r, hr⟩
+      simp only [List.cons_append, List.nil_append, List.cons.injEq, true_and] at hr
+      exact hs ⟨r, by simpa using hr⟩)
+    simpa using this
+  simp only [List.map, Dsp.classify, decodeKind, kindRe]
+  rw [hly, hse, C09_text_accept p t v q hp ht ht0 hv hq]
+  simp [grpD, grp]
+
+/-- **C09, section**: a `section v` line is rejected by the lyric recogniser and classified as a section carrying `v` -/
+theorem C09_section_dispatch (p t v q : Str) (hp : AllIn .space p) (ht : AllIn .digit t) (ht0 : t ≠ [])
+    (hv : AllIn .any v) (hq : AllIn .space q) :
+    Dsp.classify (Gen.eventsKindOrder.map decodeKind)
+      (p ++ (t ++ ([32, 61, 32, 69, 32, 34, 115, 101, 99, 116, 105, 111, 110, 32] ++ (v ++ 34 :: q)))) 0
+      = some (1, .ev 7 (intOf t) v) := by
+  rw [gen_events_kind_order]
+  have hly : Gen.lyricRe.matchGroups (p ++ (t ++ ([32, 61, 32, 69, 32, 34, 115, 101, 99, 116, 105, 111, 110, 32] ++ (v ++ 34 :: q)))) = none := by
+    rw [matchGroups_of_norm_eq gen_lyric_is_template]
+    unfold lyricT
+    have := ev_reject [69, 32, 34, 108, 121, 114, 105, 99, 32] (quotedTail .any) p t
+      ([69, 32, 34, 115, 101, 99, 116, 105, 111, 110, 32] ++ (v ++ 34 :: q)) hp ht ht0 (by
+      rintro ⟨r, hr⟩
+      simp at hr)
+    simpa using this
+  simp only [List.map, Dsp.classify, decodeKind, kindRe]
+  rw [hly, C09_section_accept p t v q hp ht ht0 hv hq]
   simp [grpD, grp]
 
 /-- why the order obligation exists: offered first, the text recogniser claims a (quote-free) lyric line whole -/
